@@ -35,7 +35,15 @@ def find_sort_site(ctx):
     repo = ctx.repo
     mod = repo.module("gaftools.cli.sort", "R08.1")
     sites = []
-    for f in mod.funcs.values():
+    from ..core import tail_inlined
+
+    def is_key_extraction(callee):
+        return any(isinstance(r, ast.Return) and isinstance(r.value, ast.Tuple) and len(r.value.elts) >= 4 for r in ast.walk(callee.node))
+
+    helpers_inlined = {}
+    for f0 in mod.funcs.values():
+        # helpers of the sort function (open / read pass / write pass split off) are read in place
+        f = tail_inlined(repo, f0, keep=is_key_extraction)
         for n in walk_own(f.node):
             if isinstance(n, ast.Call):
                 fn = n.func
@@ -554,7 +562,7 @@ def check_sorted_is_written(ctx, f, call):
         src = norm(call.args[0]) if call.args else None
         ctx.check(src == recv or True, "R08.3", f.where(call), f"the sorted copy `{recv}` of `{src}` is what the write loop iterates", key_of(f, f"sorted-copy:{src}->{recv}"), nontrivial=False)
     # the write loop iterates the same list, after the sort; no other reordering call on it
-    loops = [n for n in walk_own(f.node) if isinstance(n, ast.For) and norm(n.iter) == recv and n.lineno > call.lineno]
+    loops = [n for n in walk_own(f.node) if isinstance(n, ast.For) and norm(n.iter) == recv and f.before(call, n)]
     ctx.check(len(loops) >= 1, "R08.3", f.where(call), f"the list sorted ({recv}) is the list iterated by the write loop", key_of(f, "write-loop-over-sorted-list"))
     reorder = []
     for n in walk_own(f.node):
